@@ -9,6 +9,10 @@ Stages
      state is threaded through the calls and which starts from a junk-filled workspace (junk
      independence is theorem C15_*_junk_independent); IDR(s): the constructor's std::mt19937
      draws are an explicit input of the model (krylov_cases.with_idrs_raw).
+  1b. binary64 sequences: the same scripts style with dyadic data, long solves (up to 300 iterations, dozens of
+     restarts), run on ONE double-build object (d.seq), on fresh objects (d.seqfresh) and on the extracted model
+     object evaluated at a binary64 Scalar instance with its state threaded through the calls (f.seq): all three
+     must agree bit for bit (LGMRES always_reset=false: object vs model only).
   2. inputs unchanged: the harness compares matrix and right-hand side before/after every call.
   3. zero right-hand side => (0 iterations, x = 0); initial guess that already satisfies the
      tolerance => 0 iterations and x unchanged.
@@ -119,6 +123,25 @@ def cases(tier, seed):
                        replacement=int(r.random() < 0.3), areset=1)
             out.append((kc.seq_line("q%d" % len(out), "d.seq", solver, kc.side_for(r, solver), n, calls, **prm), "dseq",
                         dict(solver=solver, long=True, M=prm["M"], K=prm["K"])))
+    # 2c. binary64 sequences compared with the model object (state threaded through the calls)
+    for solver in kc.SOLVERS + ["lgmres", "lgmres"]:
+        for si in range(3 if tier == "quick" else 10):
+            n = r.choice([8, 16, 36, 48])
+            base = kc.dyadic_sys(r, n, solver)
+            calls = []
+            for c in range(r.choice([3, 4, 5])):
+                kind = r.choice(["plain", "plain", "plain", "zero", "break", "nan", "same"])
+                S = kc.dyadic_sys(r, n, solver, pk=base.pk)
+                if kind == "same": S.rows = base.rows                      # same matrix, other right-hand side
+                if kind == "zero": S.f = [F(0)] * n
+                elif kind == "break" and solver != "cg": S = breakdown_sys(n)
+                elif kind == "nan": S.rows = [[] if i == 0 else rw for i, rw in enumerate(S.rows)]; S.pk, S.pdata = "id", None
+                calls.append(S)
+            calls.append(kc.dyadic_sys(r, n, solver, pk=base.pk))
+            prm = kc.dyadic_prm(r, maxiter=r.choice([10, 40, 300]))
+            if solver == "lgmres": prm["M"] = r.choice([1, 2, 3]); prm["areset"] = r.choice([1, 1, 0])
+            out.append((kc.seq_line("q%d" % len(out), "fseq", solver, kc.side_for(r, solver), n, calls, **prm), "fseq",
+                        dict(solver=solver, areset=prm["areset"])))
     # 3. zero rhs / converged guess through make_solver
     for solver in kc.SOLVERS:
         for si in range(3 if tier == "quick" else 8):
@@ -141,13 +164,42 @@ def run(ctx, cases_override=None):
         cs = []
         for l in cases_override:
             tk = l.split(" ", 3)
-            cs.append((l, {"seq": "seq", "d.seq": "dseq", "solve": "zero"}.get(tk[1], "seq"), dict(solver=tk[2], n=0)))
+            cs.append((l, {"seq": "seq", "d.seq": "dseq", "solve": "zero", "fseq": "fseq"}.get(tk[1], "seq"), dict(solver=tk[2], n=0)))
     else:
         cs = cases(ctx["tier"], ctx["seed"])
+    fseq = [c for c in cs if c[1] == "fseq"]
+    cs = [c for c in cs if c[1] != "fseq"]
     lines = [c[0] for c in cs]
     fails = []
     impl = ctx["run_driver"](ctx["cpp"]["krylov"], lines, timeout=TMO)
     account(ctx, lines, impl)
+    # binary64 sequences: one object / fresh objects / model object
+    if fseq:
+        fl0 = [c[0].replace(" fseq ", " seq ", 1) for c in fseq]
+        il, ml = kc.float_pair(ctx, fl0)
+        fi = ctx["run_driver"](ctx["cpp"]["krylov"], il, timeout=TMO)
+        ff = ctx["run_driver"](ctx["cpp"]["krylov"], [l.replace(" d.seq ", " d.seqfresh ", 1) for l in il], timeout=TMO)
+        fm = ctx["run_driver"](ctx["model"], ml, timeout=TMO)
+        account(ctx, il, fi)
+        for (l, kind, meta), li in zip(fseq, il):
+            cid = l.split(" ", 1)[0]
+            a, b, m = fi.get(cid), ff.get(cid), fm.get(cid)
+            ctx["stats"]["oracle_checks"] += 2
+            if a is None or a.startswith(("CRASH", "UNSUPPORTED")) or "INPUT-MODIFIED" in (a or ""):
+                fails.append(dict(kind="counterexample", case=l, impl=(a or "")[:2000], model=None, op="fseq:" + meta["solver"], size=len(l),
+                                  theorem="C15: implementation run (crash / matrix or right-hand side modified by the call)"))
+                continue
+            if a != m:
+                ctx["stats"]["mismatches"] += 1
+                fails.append(dict(kind="counterexample", case=l, impl=a[:3000], model=(m or "")[:3000], op="fseq-model:" + meta["solver"], size=len(l),
+                                  theorem="C15 binary64 correspondence: call sequence on one %s object (double build) vs the extracted model object at the binary64 Scalar instance, state threaded through the calls" % meta["solver"]))
+            if a != b and meta.get("areset", 1):
+                ctx["stats"]["mismatches"] += 1
+                pa, pb = a.split(" ; "), (b or "").split(" ; ")
+                first = next((i for i in range(len(pa)) if i >= len(pb) or pa[i] != pb[i]), -1)
+                fails.append(dict(kind="counterexample", case=l, impl=a[:3000], model=(b or "")[:3000], op="fseq:" + meta["solver"], size=len(l),
+                                  oracle=dict(op="reuse", first_differing_call=first),
+                                  theorem="C15 reuse: call sequence on one %s object vs a fresh object per call (double, bit patterns)" % meta["solver"]))
     # fresh-object runs of the same scripts
     fl = []
     for l, kind, meta in cs:
